@@ -660,6 +660,47 @@ example :
     norm_num
 end
 
+/-! ### Round 5: accelerated proximal gradient called again with the returned `x` -/
+section
+variable {K V W : Type} [Field K] [AddCommGroup V] [Module K V] [AddCommGroup W] [Module K W]
+set_option linter.unusedSectionVars false
+
+/-- `accelerated_proximal_gradient`: the FIRST iteration of every call (fresh `y = x.copy()`, `t = 1`,
+hence `alpha = 0`) is one plain `proximal_gradient` iteration with `lam = 1` from the same `x`, and
+leaves `y = x` — for every `sqrt` function, proximal and gradient map.  This is the oracle of the
+stream `apg_restart` (first iterate of each call against the real `proximal_gradient`). -/
+theorem C11.apg_first_step_is_proximal_gradient (P : ProxGradP K V) (sqrt : K → K) (x0 junk junk' : V) :
+    let P1 : ProxGradP K V := { P with lam := fun _ => 1 }
+    (P.accStep sqrt (P.accInit x0 junk)).x = (P1.step (P1.init x0 junk')).x ∧
+    (P.accStep sqrt (P.accInit x0 junk)).y = (P1.step (P1.init x0 junk')).x := by
+  intro P1
+  simp only [ProxGradP.accStep, ProxGradP.accInit, ProxGradP.step, ProxGradP.init, lincomb, P1,
+    sub_self, zero_div, add_zero, neg_zero, zero_smul, one_smul, zero_add, and_self]
+
+/-- The split run executed by the driver for `apg_restart` (`ProxGradP.accRunSplit`): its final state
+is `m` iterations from the re-initialised state at the returned `x` (momentum `y`, `t` forgotten),
+and the two callbacks together were called `n + m` times.  (By construction + `runLog_eq`.) -/
+theorem C11.apg_runSplit_second_call (P : ProxGradP K V) (sqrt : K → K) (x0 junk junk' : V) (n m : Nat) :
+    let a := (P.accStep sqrt)^[n] (P.accInit x0 junk)
+    (P.accRunSplit sqrt x0 junk junk' n m).1 = (P.accStep sqrt)^[m] (P.accInit a.x junk') ∧
+    (P.accRunSplit sqrt x0 junk junk' n m).2.length = n + m := by
+  intro a
+  simp only [ProxGradP.accRunSplit, runLog_eq, List.nil_append, List.length_append, List.length_map,
+    List.length_range, and_self, a]
+
+/-- `accelerated_proximal_gradient` cannot be resumed from `x`: the momentum `y` and `t` are locals.
+Two iterations then one differ from three (`sqrt` replaced by a rational stand-in with
+`sqrt 5 ↦ 3`, `sqrt 17 ↦ 5`; the conclusion only needs `t₁ ≠ 1`). -/
+theorem C11.apg_resume_needs_state :
+    let P : ProxGradP ℚ ℚ := ⟨fun x => x / 2, fun x => x, 1 / 2, fun _ => 1⟩
+    let sqrt : ℚ → ℚ := fun q => if q = 5 then 3 else if q = 17 then 5 else 1
+    ((P.accStep sqrt)^[1] (P.accInit ((P.accStep sqrt)^[2] (P.accInit 1 0)).x 0)).x ≠
+      ((P.accStep sqrt)^[2 + 1] (P.accInit 1 0)).x := by
+  simp only [Function.iterate_succ, Function.iterate_zero, Function.comp, ProxGradP.accStep,
+    ProxGradP.accInit, lincomb, smul_eq_mul]
+  norm_num
+end
+
 /-! ### Callbacks -/
 
 /-- Callbacks: a loop `for _ in range(n): step; callback(x)` calls the callback exactly `n` times,
